@@ -135,7 +135,8 @@ theorem labelsMatch_lower : ∀ ps hs : List Bytes, labelsMatch ps (hs.map lower
   | [], _ :: _ => rfl
   | _ :: _, [] => rfl
   | p :: ps, h :: hs => by
-    simp only [List.map_cons, labelsMatch, equalFold_lower_right, labelsMatch_lower ps hs]
+    have he : (lower h).isEmpty = h.isEmpty := by cases h <;> rfl
+    simp only [List.map_cons, labelsMatch, labelMatch, equalFold_lower_right, labelsMatch_lower ps hs, he]
 
 theorem entryMatches_lower (h e : Bytes) : entryMatches (lower h) e = entryMatches h e := by
   unfold entryMatches
@@ -163,20 +164,34 @@ theorem labelsMatch_iff : ∀ ps hs : List Bytes, (∀ h, h ∈ hs → lower h =
   | p :: ps, h :: hs, hl => by
     have ih := labelsMatch_iff ps hs (fun x hx => hl x (List.mem_cons_of_mem _ hx))
     have hh : lower h = h := hl h (List.mem_cons_self)
-    simp only [labelsMatch, Bool.and_eq_true, Bool.or_eq_true, beq_iff_eq, ih]
+    simp only [labelsMatch, Bool.and_eq_true, ih]
+    have key : labelMatch p h = true ↔ LabelRule p h := by
+      unfold labelMatch LabelRule
+      by_cases hp : p = [cStar]
+      · subst hp
+        simp only [beq_self_eq_true, if_true, Bool.not_eq_eq_eq_not, Bool.not_true, List.isEmpty_eq_false_iff]
+        constructor
+        · intro hne; exact Or.inl ⟨trivial, hne⟩
+        · rintro (⟨_, hne⟩ | ⟨hne, _⟩)
+          · exact hne
+          · exact absurd rfl hne
+      · have hb : (p == [cStar]) = false := by simpa using hp
+        rw [hb]
+        simp only [Bool.false_eq_true, if_false]
+        unfold equalFold
+        rw [hh]
+        simp only [beq_iff_eq]
+        constructor
+        · intro e; exact Or.inr ⟨hp, e⟩
+        · rintro (⟨e, _⟩ | ⟨_, e⟩)
+          · exact absurd e hp
+          · exact e
     constructor
     · intro ⟨h1, h2⟩
-      refine LabelsRule.cons ?_ h2
-      rcases h1 with h1 | h1
-      · exact Or.inl h1
-      · right; unfold equalFold at h1; rw [hh] at h1; simpa using h1
+      exact LabelsRule.cons (key.mp h1) h2
     · intro hr
       cases hr with
-      | cons h1 h2 =>
-        refine ⟨?_, h2⟩
-        rcases h1 with h1 | h1
-        · exact Or.inl h1
-        · right; unfold equalFold; rw [hh, h1]; simp
+      | cons h1 h2 => exact ⟨key.mpr h1, h2⟩
 
 theorem entryMatches_iff_rule (e ch : Bytes) (hc : lower ch = ch) :
     entryMatches ch e = true ↔ EntryRule e ch := by
